@@ -16,7 +16,8 @@ def initState (f : Pid) : ChState := if f.srv then .closed else .id 0 false
 def ChanLe (x' x : Chan) : Prop := x'.state = x.state ∧ x'.sub <:+ x.sub
 
 def ConnLe (c' c : Conn) : Prop :=
-  ∀ (j : Nat) (x' : Chan), c'.chans[j]? = some x' → ∃ x, c.chans[j]? = some x ∧ ChanLe x' x
+  (∀ (j : Nat) (x' : Chan), c'.chans[j]? = some x' → ∃ x, c.chans[j]? = some x ∧ ChanLe x' x) ∧
+  c'.cap = c.cap ∧ c'.overflow = c.overflow
 
 def Fresh (f : Pid) (c : Conn) : Prop :=
   ∀ (j : Nat) (x : Chan), c.chans[j]? = some x → x.sub = [] ∧ x.state = initState f
@@ -28,16 +29,17 @@ theorem ChanLe.refl (x : Chan) : ChanLe x x := ⟨rfl, List.suffix_refl _⟩
 theorem ChanLe.trans {a b c : Chan} (h1 : ChanLe a b) (h2 : ChanLe b c) : ChanLe a c :=
   ⟨h1.1.trans h2.1, h1.2.trans h2.2⟩
 
-theorem ConnLe.refl (c : Conn) : ConnLe c c := fun _ x' h => ⟨x', h, ChanLe.refl _⟩
+theorem ConnLe.refl (c : Conn) : ConnLe c c := ⟨fun _ x' h => ⟨x', h, ChanLe.refl _⟩, rfl, rfl⟩
 theorem ConnLe.trans {a b c : Conn} (h1 : ConnLe a b) (h2 : ConnLe b c) : ConnLe a c := by
+  refine ⟨?_, h1.2.1.trans h2.2.1, h1.2.2.trans h2.2.2⟩
   intro j x' h
-  obtain ⟨y, hy, l1⟩ := h1 j x' h
-  obtain ⟨z, hz, l2⟩ := h2 j y hy
+  obtain ⟨y, hy, l1⟩ := h1.1 j x' h
+  obtain ⟨z, hz, l2⟩ := h2.1 j y hy
   exact ⟨z, hz, l1.trans l2⟩
 
 theorem Fresh.le {f : Pid} {c' c : Conn} (h : ConnLe c' c) (hf : Fresh f c) : Fresh f c' := by
   intro j x' hx
-  obtain ⟨x, hx2, l⟩ := h j x' hx
+  obtain ⟨x, hx2, l⟩ := h.1 j x' hx
   obtain ⟨e, s⟩ := hf j x hx2
   refine ⟨?_, l.1.trans s⟩
   have := l.2; rw [e] at this
@@ -117,8 +119,10 @@ theorem ConnsLe.delConn (w : World) (f t : Pid) : ConnsLe w (delConn w f t) := b
 
 /-- a connection whose channels keep `state` and `sub` -/
 theorem ConnLe.of_chans {c' c : Conn}
-    (h : ∀ (j : Nat) (x' : Chan), c'.chans[j]? = some x' → ∃ x, c.chans[j]? = some x ∧ x'.state = x.state ∧ x'.sub = x.sub) :
+    (h : ∀ (j : Nat) (x' : Chan), c'.chans[j]? = some x' → ∃ x, c.chans[j]? = some x ∧ x'.state = x.state ∧ x'.sub = x.sub)
+    (h1 : c'.cap = c.cap := by rfl) (h2 : c'.overflow = c.overflow := by rfl) :
     ConnLe c' c := by
+  refine ⟨?_, h1, h2⟩
   intro j x' hx
   obtain ⟨x, hx2, hs, hq⟩ := h j x' hx
   exact ⟨x, hx2, hs, hq ▸ List.suffix_refl _⟩
@@ -682,7 +686,7 @@ theorem Popped.of_le {w0 w1 w2 : World} {f me : Pid} {ch : Nat} {e : Entry} (h1 
     (h2 : Popped w1 w2 f me ch e) : Popped w0 w2 f me ch e := by
   obtain ⟨c, x, c', x', hc, hx, hc', hx', hs, hst⟩ := h2
   rcases h1 f me c hc with ⟨c0, hc0, l⟩ | fr
-  · obtain ⟨x0, hx0, l0⟩ := l ch x hx
+  · obtain ⟨x0, hx0, l0⟩ := l.1 ch x hx
     exact ⟨c0, x0, c', x', hc0, hx0, hc', hx', hs.trans l0.2, hst.trans l0.1⟩
   · have := (fr ch x hx).1
     rw [this] at hs
@@ -702,6 +706,7 @@ theorem getElem?_set_self' {α : Type} (l : List α) (i : Nat) (a x : α) (h : l
 /-- a connection with one channel replaced by a `ChanLe` one -/
 theorem ConnLe.setChan {c : Conn} {ch : Nat} {x x' : Chan} (hx : c.chans[ch]? = some x) (hl : ChanLe x' x) :
     ConnLe (c.setChan ch x') c := by
+  refine ⟨?_, rfl, rfl⟩
   intro j y hy
   simp only [Conn.setChan, List.getElem?_set] at hy
   by_cases hj : ch = j
@@ -1056,5 +1061,267 @@ theorem portDestroy_hk (w : World) (me : Pid) :
   obtain ⟨h1, s1⟩ := sndDestroyAll_hk w me
   have h2 := rcvDestroyAll_hk (sndDestroyAll w me) me
   exact ⟨h1.trans h2.toHk, s1.trans ((h2.slotsSame _).from _)⟩
+
+/-! ### channel state changes and pushes: what they do to the connections -/
+
+theorem close_sub (x : Chan) (v : Nat) : (x.close v).sub = x.sub := by
+  simp only [Chan.close]; split <;> rfl
+theorem setHint_sub (x : Chan) (v : Nat) : (x.setHint v).sub = x.sub := by
+  simp only [Chan.setHint]; split <;> rfl
+theorem setState_sub (x : Chan) (v : Nat) : (x.setState v).sub = x.sub := by
+  simp only [Chan.setState]; split <;> rfl
+
+@[simp] theorem getCl_mapChanAt (w : World) (f t : Pid) (ch : Nat) (g : Chan → Chan) (c : Nat) :
+    getCl (mapChanAt w f t ch g) c = getCl w c := by
+  unfold mapChanAt; split
+  · split <;> rfl
+  · rfl
+@[simp] theorem getSv_mapChanAt (w : World) (f t : Pid) (ch : Nat) (g : Chan → Chan) (c : Nat) :
+    getSv (mapChanAt w f t ch g) c = getSv w c := by
+  unfold mapChanAt; split
+  · split <;> rfl
+  · rfl
+@[simp] theorem getSnd_mapChanAt (w : World) (f t : Pid) (ch : Nat) (g : Chan → Chan) (p : Pid) :
+    getSnd (mapChanAt w f t ch g) p = getSnd w p := by
+  unfold mapChanAt; split
+  · split <;> rfl
+  · rfl
+@[simp] theorem getRcv_mapChanAt (w : World) (f t : Pid) (ch : Nat) (g : Chan → Chan) (p : Pid) :
+    getRcv (mapChanAt w f t ch g) p = getRcv w p := by
+  unfold mapChanAt; split
+  · split <;> rfl
+  · rfl
+@[simp] theorem clientReg_mapChanAt (w : World) (f t : Pid) (ch : Nat) (g : Chan → Chan) :
+    (mapChanAt w f t ch g).clientReg = w.clientReg := by
+  unfold mapChanAt; split
+  · split <;> rfl
+  · rfl
+
+theorem getCl_rcvMapChan (w : World) (me : Pid) (ch : Nat) (g : Chan → Chan) (l : List (Nat × Pid)) (c : Nat) :
+    getCl (rcvMapChan w me ch g l) c = getCl w c := by
+  induction l generalizing w with
+  | nil => rfl
+  | cons a r ih => obtain ⟨k, f⟩ := a; simp only [rcvMapChan]; rw [ih]; simp
+theorem getCl_rcvMapAll (w : World) (me : Pid) (ch : Nat) (g : Chan → Chan) (c : Nat) :
+    getCl (rcvMapAll w me ch g) c = getCl w c := by
+  unfold rcvMapAll; split
+  · exact getCl_rcvMapChan _ _ _ _ _ _
+  · rfl
+theorem getSv_rcvMapChan (w : World) (me : Pid) (ch : Nat) (g : Chan → Chan) (l : List (Nat × Pid)) (c : Nat) :
+    getSv (rcvMapChan w me ch g l) c = getSv w c := by
+  induction l generalizing w with
+  | nil => rfl
+  | cons a r ih => obtain ⟨k, f⟩ := a; simp only [rcvMapChan]; rw [ih]; simp
+theorem getSv_rcvMapAll (w : World) (me : Pid) (ch : Nat) (g : Chan → Chan) (c : Nat) :
+    getSv (rcvMapAll w me ch g) c = getSv w c := by
+  unfold rcvMapAll; split
+  · exact getSv_rcvMapChan _ _ _ _ _ _
+  · rfl
+theorem getSnd_rcvMapChan (w : World) (me : Pid) (ch : Nat) (g : Chan → Chan) (l : List (Nat × Pid)) (p : Pid) :
+    getSnd (rcvMapChan w me ch g l) p = getSnd w p := by
+  induction l generalizing w with
+  | nil => rfl
+  | cons a r ih => obtain ⟨k, f⟩ := a; simp only [rcvMapChan]; rw [ih]; simp
+theorem getSnd_rcvMapAll (w : World) (me : Pid) (ch : Nat) (g : Chan → Chan) (p : Pid) :
+    getSnd (rcvMapAll w me ch g) p = getSnd w p := by
+  unfold rcvMapAll; split
+  · exact getSnd_rcvMapChan _ _ _ _ _ _
+  · rfl
+
+/-- the connections after `mapChanAt`: channel `ch` of `(f, t)` went through `g`, nothing else changed -/
+theorem mapChanAt_conn (w : World) (f t : Pid) (ch : Nat) (g : Chan → Chan) (f' t' : Pid) (c' : Conn)
+    (h : getConn (mapChanAt w f t ch g) f' t' = some c') :
+    ∃ c, getConn w f' t' = some c ∧ ∀ (j : Nat) (x' : Chan), c'.chans[j]? = some x' →
+      ∃ x, c.chans[j]? = some x ∧ (x' = x ∨ (f' = f ∧ t' = t ∧ j = ch ∧ x' = g x)) := by
+  unfold mapChanAt at h
+  split at h
+  · next c hc =>
+    unfold Conn.chan at h
+    split at h
+    · next x hx =>
+      rw [getConn_setConn] at h
+      split at h
+      · next heq =>
+        obtain ⟨rfl, rfl⟩ := heq
+        cases h
+        refine ⟨c, hc, fun j x' hx' => ?_⟩
+        simp only [Conn.setChan, List.getElem?_set] at hx'
+        by_cases hj : ch = j
+        · subst hj
+          simp only [if_true] at hx'
+          split at hx'
+          · cases hx'; exact ⟨x, hx, Or.inr ⟨rfl, rfl, rfl, rfl⟩⟩
+          · cases hx'
+        · simp only [hj, if_false] at hx'
+          exact ⟨x', hx', Or.inl rfl⟩
+      · exact ⟨c', h, fun j x' hx' => ⟨x', hx', Or.inl rfl⟩⟩
+    · exact ⟨c', h, fun j x' hx' => ⟨x', hx', Or.inl rfl⟩⟩
+  · exact ⟨c', h, fun j x' hx' => ⟨x', hx', Or.inl rfl⟩⟩
+
+theorem trySend_spec (x : Chan) (cap : Nat) (ov : Bool) (e : Entry) :
+    (x.trySend cap ov e).1.state = x.state ∧
+    ((x.trySend cap ov e).1.sub = x.sub ∨ ∃ l, l <:+ x.sub ∧ (x.trySend cap ov e).1.sub = l ++ [e]) := by
+  unfold Chan.trySend
+  split
+  · exact ⟨rfl, Or.inl rfl⟩
+  · simp only []
+    split
+    · split
+      · exact ⟨rfl, Or.inr ⟨[], by simp_all, by simp⟩⟩
+      · next old rest hsub =>
+        have hl : rest <:+ x.sub := by
+          have : x.sub = old :: rest := hsub
+          rw [this]; exact List.suffix_cons _ _
+        split
+        · exact ⟨rfl, Or.inr ⟨rest, hl, rfl⟩⟩
+        · exact ⟨rfl, Or.inr ⟨rest, hl, rfl⟩⟩
+    · exact ⟨rfl, Or.inr ⟨x.sub, List.suffix_refl _, rfl⟩⟩
+
+theorem deliverTo_conn_key (w : World) (p t : Pid) (ch : Nat) (e : Entry) (f' t' : Pid) (c' : Conn)
+    (c : Conn) (x : Chan) (hc : getConn w p t = some c) (hx : c.chans[ch]? = some x)
+    (h2 : getConn (setConn w p t (c.setChan ch (x.trySend c.cap c.overflow e).1)) f' t' = some c') :
+    ∃ c, getConn w f' t' = some c ∧ ∀ (j : Nat) (x' : Chan), c'.chans[j]? = some x' →
+      ∃ x, c.chans[j]? = some x ∧ x'.state = x.state ∧
+        (x'.sub = x.sub ∨ (f' = p ∧ t' = t ∧ j = ch ∧ ∃ l, l <:+ x.sub ∧ x'.sub = l ++ [e])) := by
+  rw [getConn_setConn] at h2
+  split at h2
+  · next heq =>
+    obtain ⟨rfl, rfl⟩ := heq
+    cases h2
+    refine ⟨c, hc, fun j x' hx' => ?_⟩
+    simp only [Conn.setChan, List.getElem?_set] at hx'
+    by_cases hj : ch = j
+    · subst hj
+      simp only [if_true] at hx'
+      split at hx'
+      · cases hx'
+        obtain ⟨h1, h2⟩ := trySend_spec x c.cap c.overflow e
+        exact ⟨x, hx, h1, h2.imp id fun ⟨l, hl, hs⟩ => ⟨rfl, rfl, rfl, l, hl, hs⟩⟩
+      · cases hx'
+    · simp only [hj, if_false] at hx'
+      exact ⟨x', hx', rfl, Or.inl rfl⟩
+  · exact ⟨c', h2, fun j x' hx' => ⟨x', hx', rfl, Or.inl rfl⟩⟩
+
+/-- what `deliverTo` does to the connections -/
+theorem deliverTo_conn (w : World) (p t : Pid) (ch : Nat) (e : Entry) (f' t' : Pid) (c' : Conn)
+    (h : getConn (deliverTo w p t ch e).1 f' t' = some c') :
+    ∃ c, getConn w f' t' = some c ∧ ∀ (j : Nat) (x' : Chan), c'.chans[j]? = some x' →
+      ∃ x, c.chans[j]? = some x ∧ x'.state = x.state ∧
+        (x'.sub = x.sub ∨ (f' = p ∧ t' = t ∧ j = ch ∧ ∃ l, l <:+ x.sub ∧ x'.sub = l ++ [e])) := by
+  unfold deliverTo at h
+  split at h
+  · next S c hS hc =>
+    unfold Conn.chan at h
+    split at h
+    · exact ⟨c', h, fun j x' hx' => ⟨x', hx', rfl, Or.inl rfl⟩⟩
+    · next x hx =>
+      simp only [] at h
+      split at h
+      · exact deliverTo_conn_key w p t ch e f' t' c' c x hc hx (by simpa using h)
+      · exact deliverTo_conn_key w p t ch e f' t' c' c x hc hx h
+  · exact ⟨c', h, fun j x' hx' => ⟨x', hx', rfl, Or.inl rfl⟩⟩
+
+/-- everything but the connections and the sender's chunk book-keeping is untouched by `deliverTo` -/
+theorem deliverTo_core (w : World) (p t : Pid) (ch : Nat) (e : Entry) :
+    (deliverTo w p t ch e).1.clientReg = w.clientReg ∧ (deliverTo w p t ch e).1.serverReg = w.serverReg ∧
+    (deliverTo w p t ch e).1.clients = w.clients ∧ (deliverTo w p t ch e).1.servers = w.servers ∧
+    (deliverTo w p t ch e).1.rcvs = w.rcvs ∧ (deliverTo w p t ch e).1.cfg = w.cfg ∧
+    ∀ p' S', getSnd (deliverTo w p t ch e).1 p' = some S' →
+      ∃ S, getSnd w p' = some S ∧ S'.init = S.init ∧ S'.conns = S.conns := by
+  unfold deliverTo
+  split
+  · next S c hS hc =>
+    unfold Conn.chan
+    split
+    · exact ⟨rfl, rfl, rfl, rfl, rfl, rfl, fun p' S' h => ⟨S', h, rfl, rfl⟩⟩
+    · simp only []
+      split
+      · refine ⟨rfl, rfl, rfl, rfl, rfl, rfl, fun p' S' h => ?_⟩
+        simp only [getSnd_setSnd, getSnd_setConn] at h
+        split at h
+        · next hp =>
+          cases h; subst hp
+          refine ⟨S, hS, ?_, ?_⟩
+          · split <;> simp
+          · split <;> simp
+        · exact ⟨S', h, rfl, rfl⟩
+      · exact ⟨rfl, rfl, rfl, rfl, rfl, rfl, fun p' S' h => ⟨S', h, rfl, rfl⟩⟩
+  · exact ⟨rfl, rfl, rfl, rfl, rfl, rfl, fun p' S' h => ⟨S', h, rfl, rfl⟩⟩
+
+theorem getCl_deliverTo (w : World) (p t : Pid) (ch : Nat) (e : Entry) (c : Nat) :
+    getCl (ReqRes.deliverTo w p t ch e).1 c = getCl w c := by
+  unfold getCl; rw [(deliverTo_core w p t ch e).2.2.1]
+
+
+/-! ### queue lengths -/
+
+theorem trySend_len (x : Chan) (cap : Nat) (ov : Bool) (e : Entry) (h : x.sub.length ≤ max cap 1) :
+    (x.trySend cap ov e).1.sub.length ≤ max cap 1 := by
+  unfold Chan.trySend
+  split
+  · exact h
+  · simp only []
+    split
+    · split
+      · simp; omega
+      · next old rest hsub =>
+        have : x.sub = old :: rest := hsub
+        rw [this] at h
+        split <;> (simp at h ⊢; omega)
+    · next hlt => simp at hlt ⊢; omega
+
+theorem mapChanAt_cap (w : World) (f t : Pid) (ch : Nat) (g : Chan → Chan) (f' t' : Pid) (c' : Conn)
+    (h : getConn (mapChanAt w f t ch g) f' t' = some c') : ∃ c, getConn w f' t' = some c ∧ c'.cap = c.cap := by
+  unfold mapChanAt at h
+  split at h
+  · next c hc =>
+    unfold Conn.chan at h
+    split at h
+    · rw [getConn_setConn] at h
+      split at h
+      · next heq => obtain ⟨rfl, rfl⟩ := heq; cases h; exact ⟨c, hc, rfl⟩
+      · exact ⟨c', h, rfl⟩
+    · exact ⟨c', h, rfl⟩
+  · exact ⟨c', h, rfl⟩
+
+/-- `deliverTo` keeps the capacity of every connection and does not let a queue outgrow it -/
+theorem deliverTo_len (w : World) (p t : Pid) (ch : Nat) (e : Entry) (f' t' : Pid) (c' : Conn)
+    (h : getConn (deliverTo w p t ch e).1 f' t' = some c') :
+    ∃ c, getConn w f' t' = some c ∧ c'.cap = c.cap ∧ ∀ (j : Nat) (x' : Chan), c'.chans[j]? = some x' →
+      ∃ x, c.chans[j]? = some x ∧ (x'.sub = x.sub ∨ (x.sub.length ≤ max c.cap 1 → x'.sub.length ≤ max c.cap 1)) := by
+  have key : ∀ (c : Conn) (x : Chan), getConn w p t = some c → c.chans[ch]? = some x →
+      getConn (setConn w p t (c.setChan ch (x.trySend c.cap c.overflow e).1)) f' t' = some c' →
+      ∃ c, getConn w f' t' = some c ∧ c'.cap = c.cap ∧ ∀ (j : Nat) (x' : Chan), c'.chans[j]? = some x' →
+        ∃ x, c.chans[j]? = some x ∧ (x'.sub = x.sub ∨ (x.sub.length ≤ max c.cap 1 → x'.sub.length ≤ max c.cap 1)) := by
+    intro c x hc hx h2
+    rw [getConn_setConn] at h2
+    split at h2
+    · next heq =>
+      obtain ⟨hf, ht⟩ := heq
+      subst hf; subst ht
+      cases h2
+      refine ⟨c, hc, rfl, fun j x' hx' => ?_⟩
+      simp only [Conn.setChan, List.getElem?_set] at hx'
+      by_cases hj : ch = j
+      · subst hj
+        simp only [if_true] at hx'
+        split at hx'
+        · cases hx'; exact ⟨x, hx, Or.inr (trySend_len x c.cap c.overflow e)⟩
+        · cases hx'
+      · simp only [hj, if_false] at hx'
+        exact ⟨x', hx', Or.inl rfl⟩
+    · exact ⟨c', h2, rfl, fun j x' hx' => ⟨x', hx', Or.inl rfl⟩⟩
+  unfold deliverTo at h
+  split at h
+  · next S c hS hc =>
+    unfold Conn.chan at h
+    split at h
+    · exact ⟨c', h, rfl, fun j x' hx' => ⟨x', hx', Or.inl rfl⟩⟩
+    · next x hx =>
+      simp only [] at h
+      split at h
+      · exact key c x hc hx (by simpa using h)
+      · exact key c x hc hx h
+  · exact ⟨c', h, rfl, fun j x' hx' => ⟨x', hx', Or.inl rfl⟩⟩
 
 end Iox2.ReqRes
